@@ -362,6 +362,37 @@ func scenarios(w *bufio.Writer) {
 		}
 		endRun(w, mon, n)
 	}
+	// C03 witness V1: a node asks for a view change, follows it, proposes in the new view as its primary, signs its Commit, and is
+	// then called again (a timeout): the ChangeView precedes the signature, what follows it is a recovery message
+	{
+		mon := begin(4, -1, 0)
+		n := mkScenNode(mon, 0, mkVals(4), -1, w)
+		n.start(0)
+		n.recv(&Payload{dbft.ChangeViewType, 1, 0, 1, chView{1, 0, 0}})
+		n.recv(&Payload{dbft.ChangeViewType, 1, 0, 2, chView{1, 0, 0}})
+		n.tm.now = n.tm.deadline
+		n.tm.armed = false
+		n.op("T 1 0", func() { n.d.OnTimeout(1, 0) })
+		fmt.Fprintf(w, "NOTE V1 view=%d primary=%v\n", n.d.ViewNumber, n.d.IsPrimary())
+		n.tm.now = n.tm.deadline
+		n.tm.armed = false
+		n.op("T 1 1", func() { n.d.OnTimeout(1, 1) })
+		var req *Payload
+		for _, p := range n.out {
+			if p.T == dbft.PrepareRequestType {
+				req = p
+			}
+		}
+		if req != nil {
+			n.recv(&Payload{dbft.PrepareResponseType, 1, 1, 1, prepResp{req.Hash()}})
+			n.recv(&Payload{dbft.PrepareResponseType, 1, 1, 2, prepResp{req.Hash()}})
+		}
+		fmt.Fprintf(w, "NOTE V1 commitSent=%v\n", n.d.CommitSent())
+		n.tm.now = n.tm.deadline
+		n.tm.armed = false
+		n.op("T 1 1", func() { n.d.OnTimeout(1, 1) })
+		endRun(w, mon, n)
+	}
 }
 
 // pump delivers every broadcast payload to every other node in FIFO order until quiet (or max deliveries).
